@@ -7,12 +7,11 @@ import json, os, re, subprocess, concurrent.futures as cf, vlib, tracelib
 LEVEL = "exploration"
 
 
-def run_variant(ctx, binary, seed, nblocks, db, restart, gomaxprocs, tag):
+def _proc(ctx, binary, seed, nblocks, x, gomaxprocs, tag):
     out = os.path.join(ctx.scratch_dir("hist"), "h.ndjson")
     env = dict(os.environ)
     env.update({"VERIF_SEED": str(seed), "VERIF_TIER": ctx.tier, "TMPDIR": ctx.scratch, "GOMAXPROCS": str(gomaxprocs)})
-    p = subprocess.run([binary, "-out", out, "-n", str(nblocks), "-x", "db=%s;restart=%d" % (db, restart)],
-                       env=env, capture_output=True, text=True, timeout=1200)
+    p = subprocess.run([binary, "-out", out, "-n", str(nblocks), "-x", x], env=env, capture_output=True, text=True, timeout=1200)
     if p.returncode != 0:
         raise vlib.Inconclusive("DRIVER-DIED", "history %s: %s" % (tag, p.stderr[-2000:]))
     summ = {}
@@ -22,26 +21,41 @@ def run_variant(ctx, binary, seed, nblocks, db, restart, gomaxprocs, tag):
     return [json.loads(l) for l in open(out) if l.strip()], summ
 
 
+def run_variant(ctx, binary, seed, nblocks, db, restart, gomaxprocs, tag, split=0):
+    """split > 0: a TRUE restart — blocks [0,split) run in one process, the rest in a second process that opens the
+    same on-disk DB, so every process-global cache (amino/type caches, compiled stdlibs) is cold."""
+    if not split:
+        return _proc(ctx, binary, seed, nblocks, "db=%s;restart=%d" % (db, restart), gomaxprocs, tag)
+    d = ctx.scratch_dir("splitdb")
+    a, sa = _proc(ctx, binary, seed, nblocks, "db=%s;dir=%s;to=%d" % (db, d, split), gomaxprocs, tag + "/1")
+    b, sb = _proc(ctx, binary, seed, nblocks, "db=%s;dir=%s;from=%d;restart=%d" % (db, d, split, restart), gomaxprocs, tag + "/2")
+    return a + b, {"tx_ok": sa.get("tx_ok", 0) + sb.get("tx_ok", 0), "tx_fail": sa.get("tx_fail", 0) + sb.get("tx_fail", 0)}
+
+
 def run(ctx):
     binary = vlib.go_build("history", ctx)
     nblocks = 6 if ctx.tier == "quick" else 8
     allmask = (1 << nblocks) - 1
     if ctx.tier == "quick":
         seeds = [ctx.seed]
-        variants = [("memdb", allmask, 1), ("goleveldb", 0b101010, 16), ("pebbledb", 0b010101, 16), ("boltdb", allmask, 2), ("memdb", 0, 16)]
+        variants = [("memdb", allmask, 1, 0), ("goleveldb", 0b101010, 16, 0), ("pebbledb", 0b010101, 16, 0), ("boltdb", allmask, 2, 0), ("memdb", 0, 16, 0),
+                    ("goleveldb", 0, 16, 3), ("pebbledb", 0, 4, 4)]
     else:
         seeds = [ctx.seed * 7 + k for k in range(5)]
         variants = []
         for db in ("memdb", "goleveldb", "pebbledb", "boltdb"):
             for mask in (0, allmask, 0b10101010, 0b01010101, 0b00011000, 1 << (nblocks - 1)):
                 for gmp in (1, 16):
-                    variants.append((db, mask & allmask, gmp))
+                    variants.append((db, mask & allmask, gmp, 0))
+        for db in ("goleveldb", "pebbledb", "boltdb"):
+            for split in range(1, nblocks):
+                variants.append((db, 0, 16, split))
     pairs, evals, restarts = [], 0, 0
     tx_ok = tx_fail = 0
     for seed in seeds:
         with cf.ThreadPoolExecutor(max_workers=6) as ex:
             ref_f = ex.submit(run_variant, ctx, binary, seed, nblocks, "memdb", 0, 16, "ref")
-            futs = [(v, ex.submit(run_variant, ctx, binary, seed, nblocks, v[0], v[1], v[2], str(v))) for v in variants]
+            futs = [(v, ex.submit(run_variant, ctx, binary, seed, nblocks, v[0], v[1], v[2], str(v), v[3])) for v in variants]
             ref, rs = ref_f.result()
             tx_ok += rs.get("tx_ok", 0)
             tx_fail += rs.get("tx_fail", 0)
@@ -53,7 +67,7 @@ def run(ctx):
                     ctx.violation("C01:block-count-differs:%s" % v[0], "variant %s produced %d blocks, reference %d" % (v, len(lines), len(ref)), {"seed": seed, "variant": v})
                     continue
                 for a, b in zip(ref, lines):
-                    pairs.append({"a": a, "b": b, "variant": {"db": v[0], "restart": v[1], "gomaxprocs": v[2]}, "seed": seed})
+                    pairs.append({"a": a, "b": b, "variant": {"db": v[0], "restart": v[1], "gomaxprocs": v[2], "process_split_at": v[3]}, "seed": seed})
     if tx_ok == 0 or tx_fail == 0:
         raise vlib.Inconclusive("VACUOUS", "history without both successful and failed transactions (ok=%d fail=%d)" % (tx_ok, tx_fail))
     # TLC evaluates the statement on every pair; a violated invariant names the clause and the pair
@@ -70,7 +84,7 @@ def run(ctx):
             k = int(ls[-1]) if ls else 1
             bad = remaining[k - 1]
             v = bad["variant"]
-            kind = "restart" if v["restart"] else ("backend" if v["db"] != "memdb" else "rerun")
+            kind = "process-restart" if v.get("process_split_at") else ("restart" if v["restart"] else ("backend" if v["db"] != "memdb" else "rerun"))
             ctx.violation("C01:%s:%s" % (r.violated, kind), "block h=%s differs between the reference run and variant %s (seed %s): %s" % (bad["a"].get("h"), v, bad["seed"], r.violated), bad)
             # drop every pair of that variant+seed and continue with the rest
             remaining = [p for p in remaining[k:] if not (p["variant"] == v and p["seed"] == bad["seed"])]
@@ -79,7 +93,7 @@ def run(ctx):
             raise vlib.Inconclusive("TLC-ERROR", r.error)
         break
     ctx.cov.update({"evaluations": evals + len(seeds), "distinct_nontrivial": evals,
-                    "rule": "one evaluation = one full run of a seeded history (%d blocks, 1-4 txs each: package deployments, realm calls persisting linked objects and maps, cross-realm calls, MsgRun scripts iterating maps and emitting events, sends, failing and partially failing txs) in its own process under one variant (db back end x restart mask x GOMAXPROCS); distinct_nontrivial = variant runs (all differ from the reference in at least one of back end / restarts / GOMAXPROCS / process map seed) compared block by block" % nblocks,
+                    "rule": "one evaluation = one full run of a seeded history (%d blocks, 1-4 txs each: package deployments, realm calls persisting linked objects and maps, cross-realm calls, MsgRun scripts iterating maps and emitting events, sends, failing and partially failing txs) in its own process under one variant (db back end x restart mask x GOMAXPROCS x process split: the history continued by a second process on the same on-disk DB); distinct_nontrivial = variant runs (all differ from the reference in at least one of back end / restarts / GOMAXPROCS / process map seed) compared block by block" % nblocks,
                     "pairs_checked": len(pairs), "restarts_exercised": restarts, "tx_ok": tx_ok, "tx_fail": tx_fail, "histories": len(seeds)})
     for p in pairs[:2]:
         ctx.sample({"variant": p["variant"], "h": p["a"]["h"], "apphash": p["a"]["apphash"], "txs": [{k: t[k] for k in ("ok", "cls", "used")} for t in p["a"]["txs"]]})
